@@ -130,6 +130,18 @@ PROPS = {
         "assumptions": ["JSON decoding of the written bytes back to Go values is gqlgen's own (encoding/json with UseNumber), trusted",
                         "executable monitors (json_unquote, utf8_validb) restate the relational specification; they are run on the model's own output in every check (monmodel) but their agreement with the relations is not itself proved"],
     },
+    "C16": {
+        "engine": "c16", "monitors": ["mon"],
+        "engine_timeout": {"quick": 900, "thorough": 7200},
+        "technique": "Coq proof (the client's reconstruction inverts gqlgen's introspection for every well-formed schema, by structural induction with a sort/map commutation lemma; closed gate: non-interference and null-with-error for every query shape) + differential correspondence of the generated introspection resolvers on random schemas served through Config.Schema of probe servers generated at check time",
+        "level_text": "Theorems for every schema of the shape gqlparser's loader produces (unbounded numbers of types, fields, arguments, input fields, enum values, directives; any list/non-null nesting, description, default, deprecation): rebuild(introspect s) = normalise s, where normalise only orders by name, hides the implicit __schema/__type entry fields and reads a bare @deprecated with its declared default; each argument reports its own deprecation; an interface's possibleTypes are exactly the objects declaring it; no reference dangles in a closed schema. With introspection disabled, for every collected query (any aliases, fragment merging, arguments): every key of __schema/__type/_service is null with an error, the errors are exactly those keys, and the whole response is equal for any two schema values (non-interference). The pinned commit is refuted on four deviations (all repaired by fix: commits). Every check loads pinned and random schemas independently with gqlparser, serves them through Config.Schema of probe servers generated from the current templates (both layouts), and compares (a) the answer to the full standard introspection query with the model and the rebuilt schema with the loaded one, (b) answers to random introspection query shapes (aliases, inline/named fragments, merged fields, @include, variables, includeDeprecated, __type(name:)) with the model's evaluator, gate open and closed, (c) closed-gate queries hidden among user fields, each also run against a second schema value (byte-identical responses required). Partial: the federation _service field is modelled (non-null, same gate) but not yet exercised on a generated federation probe; the link between the query evaluator and the record-level introspect function is established by the correspondence, not by a theorem; TypeRef depth of the standard query bounds list nesting at 9.",
+        "level_note": "Trusted: Coq kernel + vm_compute; harness (schema generator, ast.Schema -> Coq printer, JSON -> Coq translation, query renderer that hides a known collected tree behind fragments/aliases/variables); gqlparser's loader and Value.String() (default values are compared as text); serving a foreign schema through Config.Schema means the root type is known to the executor as 'Query' (root type conditions are only generated for that name).",
+        "trusted": ["gqlparser: LoadSchema (shape of definitions = wf_schema, checked on every case), Value.String() for default values, the MaxIntrospectionDepth rule (query shapes respect it)",
+                    "the query renderer constructs the text from the collected tree the model evaluates (fragments, merged fields, variables are introduced by the renderer, so the expected collected form is known by construction)",
+                    "a probe server generated for the probe schema serves other schemas through Config.Schema; root-level __typename therefore answers 'Query'"],
+        "assumptions": ["type references nest at most 9 wrappers (depth of the TypeRef fragment used); deeper references are reported as malformed by the harness rather than compared",
+                        "federation's _service gate is proved in the model and not exercised by this check"],
+    },
     "C15": {
         "engine": "c15",
         "technique": "Coq proof (invariant by induction over request histories, any hash function, map/LRU cache) + differential correspondence against the real APQ extension over exhaustive short and random long histories",
